@@ -290,6 +290,9 @@ def ghostAssign (h : Heap) (s : Nat) (x : Name) (dflt glob : Bool) : Bool :=
   if dflt && ghostRead h s x then true
   else if glob then (!declares h x (rootOf h s) && ghostAt h x (rootOf h s))
   else if declares h x s || ghostAt h x s then false   -- lands in `s` either way
+  -- the specified target is `s` itself (new local / shadow): under either reading of the
+  -- leak question every later read that does not itself meet the ghost sees the same value
+  else if specTarget h s x == s then false
   else match parentAt h s with
     | none => false
     | some p => ghostRead h p x
